@@ -7,25 +7,77 @@ import RoaringModel.TreemapFmt
 namespace Roaring.Driver
 open Roaring
 
+
+/-- maximal runs of consecutive values of an ascending list -/
+def runsOf (l : List Nat) : List (Nat × Nat) :=
+  (l.foldl (fun (acc : List (Nat × Nat)) v =>
+    match acc with
+    | (a, z) :: rest => if z + 1 == v then (a, v) :: rest else (v, v) :: acc
+    | [] => [(v, v)]) []).reverse
+
+/-- the first three and the last three runs -/
+def pickRuns (rs : List (Nat × Nat)) : List (Nat × Nat) :=
+  if rs.length ≤ 6 then rs else rs.take 3 ++ rs.drop (rs.length - 3)
+
+/-- `probe`: the battery of queries derived from the runs of the value itself (see harness exec/extra.rs) -/
+def probeStr (els : List Nat) (cr : Nat → Nat → Bool) (ct : Nat → Bool) (rc : Nat → Nat → Nat) (rank : Nat → Nat)
+    (sel : Nat → Option Nat) : String :=
+  let runs := runsOf els
+  let m := 4294967295
+  let selS := fun (n : Nat) (pred : Bool) =>
+    if pred then (if n = 0 then "none" else if n - 1 > m then "none" else showOpt (sel (n - 1)))
+    else (if n > m then "none" else showOpt (sel n))
+  (pickRuns runs).foldl (fun o (a, z) =>
+    let ra := rank a; let rz := rank z
+    o ++ s!" {a}..{z}:{showBool (cr a z)}"
+      ++ (if z < m then s!",{showBool (cr a (z+1))},{showBool (ct (z+1))}" else ",-,-")
+      ++ (if a > 0 then s!",{showBool (cr (a-1) z)}" else ",-")
+      ++ s!",{rc a z},{ra},{rz},{selS ra true},{selS rz true},{selS rz false}") s!"runs={runs.length}"
+
+def tprobeStr (els : List Nat) (ct : Nat → Bool) (rank : Nat → Nat) (sel : Nat → String) : String :=
+  let runs := runsOf els
+  let m := 18446744073709551615
+  let selS := fun (n : Nat) (pred : Bool) =>
+    if pred then (if n = 0 then "none" else sel (n - 1)) else (if n > m then "none" else sel n)
+  (pickRuns runs).foldl (fun o (a, z) =>
+    let ra := rank a; let rz := rank z
+    o ++ s!" {a}..{z}:{showBool (ct a)}"
+      ++ (if z < m then s!",{showBool (ct (z+1))}" else ",-")
+      ++ (if a > 0 then s!",{showBool (ct (a-1))},{rank (a-1)}" else ",-,-")
+      ++ s!",{ra},{rz},{selS ra true},{selS rz true},{selS rz false}") s!"runs={runs.length}"
+
 def opsExtra : Handler := fun st toks =>
   let b? (t : String) := (parseSlot 'b' t).bind fun i => (st.getB i).map fun s => (i, s)
   let t? (t : String) := (parseTSlot 't' t).bind fun i => (st.getT i).map fun s => (i, s)
   let j? (t : String) := (parseTSlot 'j' t).bind fun i => (st.getJ i).map fun s => (i, s)
   match toks with
+  | ["probe", d] => do
+    let (_, sl) ← b? d
+    let mo := probeStr (Bitmap.elems sl.m) (fun a z => Bitmap.containsRange sl.m (.incl a) (.incl z)) (Bitmap.contains sl.m)
+      (fun a z => Bitmap.rangeCardinality sl.m (.incl a) (.incl z)) (Bitmap.rankMirror sl.m) (Bitmap.select sl.m)
+    let so := probeStr sl.s (fun a z => Spec.containsRange u32Max sl.s (.incl a) (.incl z)) (Spec.contains sl.s)
+      (fun a z => Spec.rangeCardinality u32Max sl.s (.incl a) (.incl z)) (Spec.rank sl.s) (Spec.select sl.s)
+    pure (st, specMark mo so)
+  | ["tprobe", d] => do
+    let (_, sl) ← t? d
+    let mo := tprobeStr (Treemap.elems sl.m) (Treemap.contains sl.m) (Treemap.rank sl.m)
+      (fun n => match Treemap.select sl.m n with | some r => showOpt r | none => "panic")
+    let so := tprobeStr sl.s (Spec.contains sl.s) (Spec.rank sl.s) (fun n => showOpt (Spec.select sl.s n))
+    pure (st, specMark mo so)
   | ["clone_from", d, s] => do
     let (i, _) ← b? d; let (_, sl) ← b? s
     pure (st.setB i sl, "ok")
   | ["default", d] => (parseSlot 'b' d).map fun i => (st.setB i ⟨[], []⟩, "ok")
   | "extend_ref" :: d :: vs => do
     let (i, sl) ← b? d; let vs ← parseNats vs
-    pure (st.setB i ⟨Bitmap.extend sl.m vs, Spec.extend sl.s vs⟩, "ok")
+    pure (st.setB i ⟨Bitmap.extendMirror sl.m vs, Spec.extend sl.s vs⟩, "ok")
   | "from_iter_ref" :: d :: vs => do
     let i ← parseSlot 'b' d; let vs ← parseNats vs
-    pure (st.setB i ⟨Bitmap.fromIter vs, Spec.extend [] vs⟩, "ok")
+    pure (st.setB i ⟨Bitmap.fromIterMirror vs, Spec.extend [] vs⟩, "ok")
   | "from_arr" :: d :: vs => do
     let i ← parseSlot 'b' d; let vs ← parseNats vs
     if vs.length > 4 then none else
-    pure (st.setB i ⟨Bitmap.fromIter vs, Spec.extend [] vs⟩, "ok")
+    pure (st.setB i ⟨Bitmap.fromIterMirror vs, Spec.extend [] vs⟩, "ok")
   | ["for_ref", d] => do
     let (_, sl) ← b? d
     let els := Bitmap.elems sl.m
@@ -37,7 +89,7 @@ def opsExtra : Handler := fun st toks =>
     let (_, sl) ← t? d
     let spec := if sl.s.length < 16 then "RoaringTreemap<[" ++ ", ".intercalate (sl.s.map toString) ++ "]>"
       else s!"RoaringTreemap<{sl.s.length} values between {showOpt sl.s.head?} and {showOpt sl.s.getLast?}>"
-    match Treemap.debugFmt sl.m with
+    match Treemap.debugFmtM sl.m with
     | some s => pure (st, specMark (showDebug s) (showDebug spec))
     | none => pure (st, specMark "panic" (showDebug spec))
   | ["tclone_from", d, s] => do
@@ -50,23 +102,49 @@ def opsExtra : Handler := fun st toks =>
   | "tfrom_iter_ref" :: d :: vs => do
     let i ← parseTSlot 't' d; let vs ← parseNatsMax 18446744073709551615 vs
     pure (st.setT i ⟨Treemap.fromIter vs, Spec.extend [] vs⟩, "ok")
+  | "tfrom_arr" :: d :: vs => do
+    -- iter.rs:439 `From<[u64; N]>` = `RoaringTreemap::from_iter(arr)`
+    let i ← parseTSlot 't' d; let vs ← parseNatsMax 18446744073709551615 vs
+    if vs.length > 4 then none else
+    pure (st.setT i ⟨Treemap.fromIter vs, Spec.extend [] vs⟩, "ok")
+  | "tcollect_bitmaps" :: d :: items => do
+    -- iter.rs:611 `FromIterator<(u32, RoaringBitmap)>` = `Self::from_bitmaps(iterator)`
+    let i ← parseTSlot 't' d; let items ← parseKeyed st items
+    let m := Treemap.fromBitmaps (items.map fun p => (p.1, p.2.m))
+    let s := Spec.fromBitmaps (items.map fun p => (p.1, p.2.s))
+    pure (st.setT i ⟨m, s⟩, "ok")
+  | ["tfor_ref", d] => do
+    -- iter.rs:421 `IntoIterator for &RoaringTreemap` = `self.iter()`, consumed by a `for` loop (`next()` until `None`)
+    let (_, sl) ← t? d
+    let r := jDrain false (sl.s.length + 1000) (.borrowed (TIter.Iter.new sl.m)) 0 fnvBasis
+    pure (st, specMark s!"n={r.2.1} h={hex64 r.2.2.toNat}" s!"n={sl.s.length} h={hex64 (sl.s.foldl fnvStep fnvBasis).toNat}")
   | ["jfold", k] => do
-    -- `Iterator::fold` of the treemap iterators = the remaining elements front to back (the iterator is consumed)
+    -- `Iterator::fold` consumes the iterator (the slot is emptied, as in the harness).  `treemap::Iter` does not
+    -- override it: core's default `while let Some(x) = self.next()` (`jDrain`).  `treemap::IntoIter::fold`
+    -- (iter.rs:328) is the specialised `FlattenCompat::fold` over `To64IntoIter::fold`: `TIter.IntoIter.fold`.
     let (i, js) ← j? k
-    let r := jDrain false (js.s.length + 1000) js.m 0 fnvBasis
+    let step := fun (a : Nat × UInt64) (v : Nat) => (a.1 + 1, fnvStep a.2 v)
+    let r : Nat × UInt64 := match js.m with
+      | .borrowed _ => (jDrain false (js.s.length + 1000) js.m 0 fnvBasis).2
+      | .owned it => it.fold (0, fnvBasis) step
     let q := (js.s.length, js.s.foldl fnvStep fnvBasis)
-    pure (st.setJ i ⟨r.1, []⟩, specMark s!"n={r.2.1} h={hex64 r.2.2.toNat}" s!"n={q.1} h={hex64 q.2.toNat}")
+    pure ({ st with jt := st.jt.set! i none }, specMark s!"n={r.1} h={hex64 r.2.toNat}" s!"n={q.1} h={hex64 q.2.toNat}")
   | ["jrfold", k] => do
+    -- `DoubleEndedIterator::rfold`: default `next_back()` loop for `treemap::Iter`, iter.rs:344 for `IntoIter`
     let (i, js) ← j? k
-    let r := jDrain true (js.s.length + 1000) js.m 0 fnvBasis
+    let step := fun (a : Nat × UInt64) (v : Nat) => (a.1 + 1, fnvStep a.2 v)
+    let r : Nat × UInt64 := match js.m with
+      | .borrowed _ => (jDrain true (js.s.length + 1000) js.m 0 fnvBasis).2
+      | .owned it => it.rfold (0, fnvBasis) step
     let q := (js.s.length, js.s.reverse.foldl fnvStep fnvBasis)
-    pure (st.setJ i ⟨r.1, []⟩, specMark s!"n={r.2.1} h={hex64 r.2.2.toNat}" s!"n={q.1} h={hex64 q.2.toNat}")
+    pure ({ st with jt := st.jt.set! i none }, specMark s!"n={r.1} h={hex64 r.2.toNat}" s!"n={q.1} h={hex64 q.2.toNat}")
   | ["jlen", k] => do
-    -- `ExactSizeIterator::len` exists for `treemap::IntoIter` only (= `size_hint().0`)
+    -- `ExactSizeIterator::len` (64-bit targets): `treemap::Iter` iter.rs:305 = `self.size_hint().0`;
+    -- `treemap::IntoIter` iter.rs:353 = `self.size_hint as usize`
     let (_, js) ← j? k
     match js.m with
-    | .borrowed _ => pure (st, "na")
-    | .owned it => pure (st, specMark (toString it.sizeHintPair.1) (toString js.s.length))
+    | .borrowed it => pure (st, specMark (toString it.sizeHint) (toString js.s.length))
+    | .owned it => pure (st, specMark (toString it.exactLen) (toString js.s.length))
   | _ => none
 
 end Roaring.Driver
